@@ -152,7 +152,10 @@ pub fn lay_out(case: &MCase) -> Vec<Laid> {
             let r = render_batch(f.host, &rb);
             let expected = f.blocks.iter().zip(&r.pos).zip(&names).flat_map(|((b, p), n)| b.expected(p, n, case.mode % 3 == 2)).collect();
             let ext = f.host.file().rsplit('.').next().unwrap();
-            let path = if f.dir.is_empty() { format!("f{fi}.{ext}") } else { format!("{}/f{fi}.{ext}", f.dir) };
+            // (a backslash is an ordinary character of a POSIX file name; git would quote such a path in a diff,
+            // which is outside the generated domain, so diff mode uses the name without it)
+            let dir = if case.mode % 3 == 2 { f.dir.replace('\\', "") } else { f.dir.clone() };
+            let path = if dir.is_empty() { format!("f{fi}.{ext}") } else { format!("{dir}/f{fi}.{ext}") };
             Laid { path, text: r.text, names, expected }
         })
         .collect()
@@ -213,7 +216,10 @@ pub fn check(case: &MCase, probe: &Probe) -> Verdict {
         if req.user_message().unwrap_or_default().contains("BAD") { crate::fakeai::Reply::Text("objection from the fake endpoint".into()) } else { crate::fakeai::Reply::Text("OK".into()) }
     });
     let with_ai = |r: BwRun| r.env("BLOCKWATCH_AI_API_URL", &fake.url()).env("BLOCKWATCH_AI_API_KEY", "k").env("BLOCKWATCH_AI_MODEL", "m");
-    let paths: Vec<&str> = laid.iter().map(|l| l.path.as_str()).collect();
+    // path arguments are globs: a backslash in a file name has to be escaped there
+    let escaped: Vec<String> = laid.iter().map(|l| l.path.replace('\\', "\\\\")).collect();
+    let paths: Vec<&str> = escaped.iter().map(String::as_str).collect();
+    let mut the_diff = String::new();
     let out = match case.mode % 3 {
         0 | 1 => {
             for l in &laid {
@@ -230,6 +236,7 @@ pub fn check(case: &MCase, probe: &Probe) -> Verdict {
             }
             sb.git_ok(&["add", "-A"]);
             let d = sb.git_diff(&["--cached"]);
+            the_diff = d.clone();
             probe.child();
             sb.bw(&with_ai(BwRun::diff(&[], d.as_bytes())))
         }
@@ -258,13 +265,26 @@ pub fn check(case: &MCase, probe: &Probe) -> Verdict {
         return Verdict::Fail(describe("validation run printed to stdout", &out));
     }
     // `list` prints the selected blocks as one JSON object on stdout and exits 0, whatever the violations.
-    if case.mode % 3 != 2 {
+    if case.mode % 3 == 2 {
+        // a diff that selects nothing (here: no diff text at all) still yields one JSON object: `{}`
+        probe.child();
+        let eo = sb.bw(&BwRun::diff(&["list"], b""));
+        if eo.code != Some(0) || eo.panicked() {
+            return Verdict::Fail(describe("`list` with an empty diff did not exit 0", &eo));
+        }
+        match parse_listing(&eo.stdout) {
+            Ok(l) if l.is_empty() => {}
+            Ok(l) => return Verdict::Fail(describe(&format!("`list` with an empty diff listed {} block(s)", l.len()), &eo)),
+            Err(e) => return Verdict::Fail(describe(&format!("`list` with an empty diff did not print one JSON object: {e}"), &eo)),
+        }
+    }
+    {
         probe.child();
         let mut args = vec!["list"];
         if case.mode % 3 == 0 {
             args.extend(paths.iter());
         }
-        let lo = sb.bw(&BwRun::scan(&args));
+        let lo = if case.mode % 3 == 2 { sb.bw(&BwRun::diff(&args, the_diff.as_bytes())) } else { sb.bw(&BwRun::scan(&args)) };
         if lo.code != Some(0) || lo.panicked() {
             return Verdict::Fail(describe("`list` did not exit 0", &lo));
         }
@@ -319,7 +339,7 @@ pub fn block_strategy() -> BoxedStrategy<MBlock> {
 pub fn case_strategy() -> BoxedStrategy<MCase> {
     let file = (
         prop_oneof![Just(Host::Sh), Just(Host::Rb), Just(Host::Sh)],
-        prop_oneof![Just(""), Just("d"), Just("d/e"), Just("src dir")],
+        prop_oneof![Just(""), Just("d"), Just("d/e"), Just("src dir"), Just("gen\\x")],
         proptest::collection::vec(block_strategy(), 1..7),
     )
         .prop_map(|(host, dir, blocks)| MFile { host, dir: dir.to_string(), blocks });
@@ -327,7 +347,7 @@ pub fn case_strategy() -> BoxedStrategy<MCase> {
 }
 
 pub fn run(run: &mut Run) {
-    run.rule = "random: 1..5 files (root or sub-directories) x 1..6 blocks x independent choice of keep-sorted / keep-unique / line-pattern / line-count / check-lua(echo|nil) / check-ai(fake endpoint objecting or answering OK) / affects with 1..3 stale references (live in diff mode: several diagnostics on the same range) on the same lines x severity in {absent, error, warning, info, hint} in random letter case; modes: scan with paths, interactive scan, new-file diff on stdin; then `list`. Expected diagnostics from the C06–C09 reference models. Non-trivial case = at least two validators reporting on one file and an error among >= 2 non-errors (or the converse).".into();
+    run.rule = "random: 1..5 files (root or sub-directories, one with a space, one with a backslash in its name) x 1..6 blocks x independent choice of keep-sorted / keep-unique / line-pattern / line-count / check-lua(echo|nil) / check-ai(fake endpoint objecting or answering OK) / affects with 1..3 stale references (live in diff mode: several diagnostics on the same range) on the same lines x severity in {absent, error, warning, info, hint} in random letter case; modes: scan with paths, interactive scan, new-file diff on stdin; then `list` in the same mode (and, in diff mode, `list` with an empty diff, which must print `{}`). Expected diagnostics from the C06–C09 reference models. Non-trivial case = at least two validators reporting on one file and an error among >= 2 non-errors (or the converse).".into();
     run.assumptions = vec!["block content lines are shell/ruby words; check-lua scripts are `echo` / `nil` scripts in the repository root".into()];
     run.random("mix", run.tier.pick(1200, 30000), case_strategy, check);
 }
